@@ -152,11 +152,14 @@ CLAIMED = {
         text="C09_exact / C09_reports / C09_only_if / C09_not_emitted: for every value, the validating rendering's error list is "
              "exactly the list of invalid names and types the rendering visits (each reported with its string), rendering "
              "succeeds without error only if all are valid, and every name/type chunk of the output is valid; the two sentinels "
-             "are added nowhere else (compile_plain_errs, induction over all values). Tie: byte-exact correspondence incl. error "
+             "are added nowhere else (compile_plain_errs, induction over all values). C09_every_written_name_is_checked (value "
+             "level, Model/Reach.v): every sub-expression in any slot of a statement or expression is written (children_written, all "
+             "constructors), hence an invalid name or cast type reachable at any depth is reported; the ORDER BY / LIMIT of a "
+             "set-operation branch is provably not written (D5). Tie: byte-exact correspondence incl. error "
              "text; offenders collected by an independent traversal of the reflective dump of each generated value (22% hostile "
              "names/types at every position class, 0..7 simultaneous offenders) are compared with the reported errors.",
-        note="Partial: 'every name of the value is visited' (idents (compile e) = names e) is checked on generated values by the "
-             "independent traversal, not yet proved in Coq. Known finding D5 (branch tail before a set operation). Defect D10 was "
+        note="The slot lists (wchildren / stmt_parts) are specifications read off the synopsis; that they list every field of the Go "
+             "structs is cross-checked by the independent traversal of the reflective dump. Known finding D5 (branch tail before a set operation). Defect D10 was "
              "repaired (fix: commit). Scope: all named arguments supplied (a missing bind is C04's error and pre-empts the others).",
         ref="DESIGN.md §6 C09"),
     "C12": dict(
